@@ -55,6 +55,14 @@ def payload_classes(full=True):
     return out
 
 
+_B64URL = b"ABCDEFGHIJKLMNOPQRSTUVWXYZabcdefghijklmnopqrstuvwxyz0123456789-_"
+
+
+def long_payloads():
+    """Payloads around the sizes at which buffers are usually cut (64 KiB and its multiples); URL-safe text, so that every path carries them."""
+    return [("len%d" % n, bytes(_B64URL[(i * 7 + i // 64) % 64] for i in range(n))) for n in (65535, 65536, 65537, 131073, 196609)]
+
+
 # ----------------------------------------------------------------- header spellings
 def spellings(h):
     """Different JSON texts of one header object (all parse to `h`)."""
